@@ -197,16 +197,200 @@ Section Table.
   Proof.
     apply syntax_mutind; unfold T_expr, T_exprs, T_fields, T_stmt, T_stmts, T_ostmts, T_ovals, T_earms, T_sarms, T_branches, two;
       intros; auto.
+    all: try match goal with H : check_args _ _ (ECons _ _) ?ps = ROk _ |- _ =>
+                 rewrite check_args_ECons in H; destruct ps; [cbn in *; discriminate|] end.
+    all: try match goal with |- (forall cx te def u, check_fields _ _ (FCons _ _ _) _ = _ -> _) /\ _ => split; intros end.
+    all: try match goal with H : check_fact_fields _ _ (FCons _ _ _) ?d = ROk _ |- _ =>
+                 rewrite check_fact_fields_FCons in H; destruct d as [|[? ?] ?]; [discriminate|] end.
     all: try (match goal with H : _ = ROk _ |- _ => autorewrite with ckq in H end).
     all: crunch.
+    all: unfold T_stmts in *.
     all: try match goal with |- (is_finish _ = false -> _) /\ _ => split; intro Hc; try (rewrite Hc in *); cbn in *; try discriminate; use_ih; try solve_bools end.
-    all: idtac "REM".
     - apply Nat.eqb_eq in G2. destruct (H cx te (map snd (fst x)) x1) as [A B]; [rewrite map_length; auto|auto|auto].
-    - idtac "G2". Show. admit.
-    - admit.
-    - admit.
-    - admit.
-    - admit.
-    - idtac "G7". Show. admit.
-  Abort.
+    - apply Nat.eqb_eq in G2. destruct (H (CxPolicy c) te (map snd (rc_params x0)) x1) as [A B]; [rewrite map_length; auto|auto|auto].
+    - destruct (H0 cx te params u) as [A' B']; [congruence|auto|auto].
+    - destruct (H0 cx te params u) as [A' B']; [congruence|auto|auto].
+    - destruct cx; cbn in *; discriminate.
+    - destruct H0 as [_ Hf]. destruct (Hf _ _ _ _ G3) as [_ B]. rewrite (B Hc). auto.
+    - apply Nat.eqb_eq in G2. destruct (H cx te (map snd (fst x)) x0) as [A B]; [rewrite map_length; auto|auto|auto].
+    - apply Nat.eqb_eq in G1. destruct (H (CxPolicy c) te (map snd (rc_params x0)) x1) as [A B]; [rewrite map_length; auto|auto|auto].
+    - cbn. destruct (H _ _ _ G0) as [A _]. rewrite (A H2), (H0 _ _ _ _ _ H1 H2). auto.
+    - cbn. destruct (H _ _ _ G0) as [A _]. rewrite (A H2), (H0 _ _ _ _ _ H1 H2). auto.
+    - cbn. destruct (H _ _ _ G0) as [A _]. rewrite (A H2), (H0 _ _ _ _ H1 H2). auto.
+    - cbn. destruct (H _ _ _ G) as [A _]. destruct (H0 _ _ _ G1) as [A' _]. rewrite (A H3), (A' H3), (H1 _ _ _ H2 H3). auto.
+  Qed.
+
+  (** C30, source level: a function-like body accepted in a non-finish context contains
+      write statements only inside finish blocks, whose statements are finish code; a
+      body accepted in finish context is finish code *)
+  Corollary accepted_outside cx te ss te' :
+    check_stmts cx te ss = ROk te' -> is_finish cx = false -> nw_stmts ss = true.
+  Proof. intros H Hc. destruct table_all as (_ & _ & _ & _ & Hs & _). exact (proj1 (Hs ss cx te te' H) Hc). Qed.
+  Corollary accepted_finish te ss te' :
+    check_stmts CxFinish te ss = ROk te' -> fin_stmts_ok ss = true.
+  Proof. intros H. destruct table_all as (_ & _ & _ & _ & Hs & _). exact (proj2 (Hs ss CxFinish te te' H) eq_refl). Qed.
 End Table.
+
+(** ** The compiled code: write instructions only inside [Meta (Finish true); Block; ...; End; Exit] *)
+Definition is_write (i : Instruction) : bool :=
+  match i with I_Create | I_Update | I_Delete | I_Emit => true | _ => false end.
+(** what finish code compiles to: straight-line instructions, calls (of finish functions),
+    no branch, jump, exit, recall or return *)
+Definition fin_instr (i : Instruction) : bool :=
+  match i with
+  | I_Const _ | I_Get _ | I_StructNew _ | I_StructSet _ | I_StructGet _ | I_Wrap _ | I_Dup
+  | I_FactNew _ | I_FactKeySet _ | I_FactValueSet _ | I_Create | I_Update | I_Delete | I_Emit
+  | I_Call _ | I_Add | I_Sub | I_SaturatingAdd | I_SaturatingSub => true
+  | _ => false
+  end.
+Definition opens_finish (i : Instruction) : bool :=
+  match i with I_Meta (M_Finish true) => true | _ => false end.
+Definition nowr (i : Instruction) : bool := negb (is_write i) && negb (opens_finish i).
+
+(** [scan false c]: [c] is code outside finish; a write instruction occurs only in a segment
+    [Meta (Finish true); Block; <fin_instr ...>; End; Exit Normal|Check], after which the
+    scan is outside again. *)
+Fixpoint scan (inf : bool) (c : list Instruction) : bool :=
+  match c with
+  | [] => negb inf
+  | i :: r =>
+    if inf then
+      match i with
+      | I_End => match r with
+                 | I_Exit ER_Normal :: r' => scan false r'
+                 | I_Exit ER_Check :: r' => scan false r'
+                 | _ => false
+                 end
+      | _ => fin_instr i && scan true r
+      end
+    else
+      match i with
+      | I_Meta (M_Finish true) => match r with I_Block :: r' => scan true r' | _ => false end
+      | _ => negb (is_write i) && scan false r
+      end
+  end.
+
+Lemma scan_plain c r : forallb fin_instr c = true -> scan true (c ++ r) = scan true r.
+Proof.
+  induction c as [|i c IH]; cbn [forallb app]; intros H; [reflexivity|].
+  apply andb_prop in H. destruct H as [Hi Hc]. specialize (IH Hc).
+  destruct i; cbn in Hi; try discriminate Hi; cbn [scan fin_instr andb]; exact IH.
+Qed.
+Lemma scan_nowr c r : forallb nowr c = true -> scan false (c ++ r) = scan false r.
+Proof.
+  induction c as [|i c IH]; cbn [forallb app]; intros H; [reflexivity|].
+  apply andb_prop in H. destruct H as [Hi Hc]. specialize (IH Hc). unfold nowr in Hi.
+  apply andb_prop in Hi. destruct Hi as [Hw Ho].
+  destruct i; cbn in Hw, Ho; try discriminate Hw; cbn [scan is_write negb andb]; try exact IH.
+  destruct m as [[|]|]; cbn in Ho; try discriminate Ho; cbn [scan is_write negb andb]; exact IH.
+Qed.
+Lemma scan_app_gen r : forall n c b, (List.length c <= n)%nat -> scan b c = true -> scan b (c ++ r) = scan false r.
+Proof.
+  induction n as [|n IH]; intros c b Hl H.
+  - destruct c; [|cbn in Hl; lia]. destruct b; cbn in H; [discriminate|reflexivity].
+  - destruct c as [|i c]; [destruct b; cbn in H; [discriminate|reflexivity]|].
+    cbn in Hl. destruct b.
+    + destruct i; cbn [scan app] in *;
+        try (apply andb_prop in H; destruct H as [Hi H]; rewrite Hi; cbn [andb]; apply IH; [lia|exact H]).
+      destruct c as [|j c]; [discriminate|]. destruct j; try discriminate. cbn [app].
+      match goal with H : match ?x with _ => _ end = true |- _ => destruct x; try discriminate H end;
+        (apply (IH c false); [cbn in Hl; lia|exact H]).
+    + destruct i; cbn [scan app] in *;
+        try (apply andb_prop in H; destruct H as [Hi H]; rewrite Hi; cbn [andb]; apply IH; [lia|exact H]).
+      destruct m as [[|]|].
+      * destruct c as [|j c]; [discriminate|]. destruct j; try discriminate. cbn [app].
+        apply (IH c true); [cbn in Hl; lia|exact H].
+      * apply andb_prop in H; destruct H as [Hi H]; rewrite Hi; cbn [andb]; apply IH; [lia|exact H].
+      * apply andb_prop in H; destruct H as [Hi H]; rewrite Hi; cbn [andb]; apply IH; [lia|exact H].
+Qed.
+Lemma scan_app c r : scan false c = true -> scan false (c ++ r) = scan false r.
+Proof. apply (scan_app_gen r (List.length c)); auto. Qed.
+Lemma scan_of_nowr c : forallb nowr c = true -> scan false c = true.
+Proof. intros H. rewrite <- (app_nil_r c), scan_nowr by exact H. reflexivity. Qed.
+Lemma forallb_app' {A} (f : A -> bool) a b : forallb f a = true -> forallb f b = true -> forallb f (a ++ b) = true.
+Proof. intros. rewrite forallb_app. rewrite H, H0. reflexivity. Qed.
+
+Lemma nowr_d_lit p l : forallb nowr (d_lit p l) = true.
+Proof. induction l; cbn; auto; rewrite forallb_app, IHl; reflexivity. Qed.
+Lemma nowr_d_tests p vals arm : forallb nowr (d_tests p vals arm) = true.
+Proof.
+  induction vals as [|[l|w x] r IH]; cbn [d_tests]; auto.
+  - rewrite !forallb_app, nowr_d_lit, IH. reflexivity.
+  - cbn. exact IH.
+Qed.
+Lemma nowr_d_patterns p pats : forall addrs, forallb nowr (d_patterns p pats addrs) = true.
+Proof.
+  induction pats as [|pt r IH]; intros; cbn [d_patterns]; auto.
+  rewrite forallb_app, IH. destruct pt; cbn [d_pattern]; [rewrite nowr_d_tests|]; reflexivity.
+Qed.
+Lemma nowr_d_arm_head pt : forallb nowr (d_arm_head pt) = true.
+Proof. unfold d_arm_head. destruct (match pt with PVals v => first_bind v | PDefault => None end) as [[w x]|]; reflexivity. Qed.
+Lemma nowr_cmp op : forallb nowr (cmp_instrs op) = true.
+Proof. destruct op; reflexivity. Qed.
+
+Section ScanCode.
+  Variable p : policy.
+  Variable is_debug : bool.
+  Variable la : Label -> N.
+  Variable cmd : ident.
+  Variable in_recall : bool.
+  Notation d_expr := (CompileDirect.d_expr p is_debug la cmd in_recall).
+  Notation d_exprs := (CompileDirect.d_exprs p is_debug la cmd in_recall).
+  Notation d_fields := (CompileDirect.d_fields p is_debug la cmd in_recall).
+  Notation d_fkeys := (CompileDirect.d_fkeys p is_debug la cmd in_recall).
+  Notation d_fvals := (CompileDirect.d_fvals p is_debug la cmd in_recall).
+  Notation d_earms := (CompileDirect.d_earms p is_debug la cmd in_recall).
+  Notation d_stmt := (CompileDirect.d_stmt p is_debug la cmd in_recall).
+  Notation d_stmts := (CompileDirect.d_stmts p is_debug la cmd in_recall).
+  Notation d_branches := (CompileDirect.d_branches p is_debug la cmd in_recall).
+  Notation d_sarms := (CompileDirect.d_sarms p is_debug la cmd in_recall).
+
+  Definition both (outside inside : bool) (c : list Instruction) : Prop :=
+    (outside = true -> scan false c = true) /\ (inside = true -> forallb fin_instr c = true).
+
+  Definition S_expr (e : expr) : Prop := forall pc, both (nw_expr e) (fin_expr_ok e) (d_expr pc e).
+  Definition S_exprs (es : exprs) : Prop := forall pc, both (nw_exprs es) (fin_exprs_ok es) (d_exprs pc es).
+  Definition S_fields (fs : fields) : Prop := forall pc,
+    both (nw_fields fs) (fin_fields_ok fs) (d_fields pc fs)
+    /\ both (nw_fields fs) (fin_fields_ok fs) (d_fkeys pc fs)
+    /\ both (nw_fields fs) (fin_fields_ok fs) (d_fvals pc fs).
+  Definition S_stmt (s : stmt) : Prop := forall pc, both (nw_stmt s) (fin_stmt_ok s) (d_stmt pc s).
+  Definition S_stmts (ss : stmts) : Prop := forall pc, both (nw_stmts ss) (fin_stmts_ok ss) (d_stmts pc ss).
+  Definition S_ostmts (o : ostmts) : Prop := match o with ONone => True | OSome ss => S_stmts ss end.
+  Definition S_ovals (o : ovals) : Prop := match o with VNone => True | VSome fs => S_fields fs end.
+  Definition S_earms (a : earms) : Prop := forall pc endl, nw_earms a = true -> scan false (d_earms pc endl a) = true.
+  Definition S_sarms (a : sarms) : Prop := forall pc endl, nw_sarms a = true -> scan false (d_sarms pc endl a) = true.
+  Definition S_branches (b : branches) : Prop := forall pc endl, nw_branches b = true -> scan false (d_branches pc endl b) = true.
+
+  Lemma d_call_fin f : fin_instr (d_call la f) = true.
+  Proof.
+    unfold d_call, builtin_instr.
+    repeat match goal with |- context [if ?c then _ else _] => destruct c; [reflexivity|] end. reflexivity.
+  Qed.
+  Lemma d_call_nowr f : negb (is_write (d_call la f)) = true.
+  Proof.
+    unfold d_call, builtin_instr.
+    repeat match goal with |- context [if ?c then _ else _] => destruct c; [reflexivity|] end. reflexivity.
+  Qed.
+
+  Ltac bools :=
+    repeat match goal with
+           | H : _ && _ = true |- _ => apply andb_prop in H; destruct H
+           end.
+  (* step through code outside finish: sub-pieces by induction hypothesis, single
+     instructions by computation *)
+  Ltac out_step :=
+    first [ rewrite scan_app by (first [eassumption | apply scan_of_nowr; auto using nowr_d_patterns, nowr_d_arm_head, nowr_cmp])
+          | progress cbn [scan app is_write negb andb] ].
+
+  Theorem scan_all :
+    (forall e, S_expr e) /\ (forall es, S_exprs es) /\ (forall fs, S_fields fs) /\ (forall s, S_stmt s)
+    /\ (forall ss, S_stmts ss) /\ (forall o, S_ostmts o) /\ (forall o, S_ovals o)
+    /\ (forall a, S_earms a) /\ (forall a, S_sarms a) /\ (forall b, S_branches b).
+  Proof.
+    apply syntax_mutind; unfold S_expr, S_exprs, S_fields, S_stmt, S_stmts, S_ostmts, S_ovals, S_earms, S_sarms, S_branches, both;
+      intros; auto.
+    all: autorewrite with deq.
+    all: idtac "REM". Show.
+  Abort.
+End ScanCode.
